@@ -28,7 +28,7 @@ RULE = (
     "`detect` and `inspect`; for `merge`: valid collections, invalid ones (second roCreate, missing "
     "roDelete, non-XML member), collections whose strict merge fails and collections whose roCreate "
     "file is an already completed running order (the output of an earlier merge), x {-o file, stdout} x -i x "
-    "-n.  The CLI is called in-process as mosromgr.cli.main(argv) with stdout/stderr captured and "
+    "-n; the same commands with -b/-p/-s against a fake S3 bucket (several result pages, foreign keys).  The CLI is called in-process as mosromgr.cli.main(argv) with stdout/stderr captured and "
     "SystemExit recorded; the thorough tier re-runs a sample in real subprocesses for the process "
     "exit status.  Oracle: detect prints, for every classifiable file in argument order, the line "
     "'<path>: <Class>' (+ ' (completed)'), class computed with MosFile.from_file; every invalid or "
@@ -37,9 +37,9 @@ RULE = (
     "exactly str(mc) of MosCollection.from_files(files, allow_incomplete=-i).merge(strict=not -n) to "
     "stdout or to the -o file and returns 0/None, and returns 2 with a non-empty stderr on any error. "
     "Non-trivial = >= 3 files with a bad/unreadable one that is not last, or a non-default option.")
-ASSUMPTIONS = ['S3 options of the CLI are exercised by C18 at library level only',
+ASSUMPTIONS = ['the S3 options (-b/-p/-s) run against the fake S3 of C18; -k (single key) is not exercised',
                'inspect() output of the library is the reference for the inspect command (self-consistency)']
-MANDATORY = ['detect', 'inspect', 'merge', 'merge:shape:completed-create', 'bad-file-not-last', 'missing-path', 'directory', 'completed-ro',
+MANDATORY = ['detect', 'inspect', 'merge', 'detect:s3', 'inspect:s3', 'merge:s3', 'merge:shape:completed-create', 'bad-file-not-last', 'missing-path', 'directory', 'completed-ro',
              'merge:-o', 'merge:-i', 'merge:-n', 'merge:invalid-collection', 'merge:strict-failure',
              'merge:no-input']
 
@@ -104,6 +104,10 @@ def judge_listing(case, root):
     if exc is not None:
         fail(f'exception-escaped-{type(exc).__name__}', f'main() let {type(exc).__name__} escape')
         return fails
+    if cmd == 'inspect':
+        # the exact spacing of the outline is not part of the property: blank lines are ignored
+        out = ''.join(l + '\n' for l in out.splitlines() if l.strip())
+        exp_out = ''.join(l + '\n' for l in exp_out.splitlines() if l.strip())
     if out != exp_out:
         got_lines, exp_lines = out.splitlines(), exp_out.splitlines()
         missing = [l for l in exp_lines if l not in got_lines]
@@ -121,6 +125,77 @@ def judge_listing(case, root):
             fail('bad-file-not-reported', f'{p} is invalid/unreadable but stderr does not mention it: {err!r}')
         if any(line.startswith(p + ':') for line in out.splitlines()):
             fail('bad-file-on-stdout', f'{p} is invalid but appears on stdout')
+    return fails
+
+
+def judge_s3(case, root):
+    """detect / inspect / merge over a fake S3 bucket (-b/-p/-s/-k options)."""
+    from vlib import fakes3
+    cmd = case['cmd']
+    objs = {}
+    for i, (kind, content) in enumerate(case['files']):
+        if kind in ('missing', 'dir'):
+            continue
+        name = f"pre/k{i:02d}" + ('.mos.xml' if kind != 'other-suffix' else '.txt')
+        objs[name] = (content or '').encode('utf-8')
+    objs['elsewhere/zz.mos.xml'] = b'<mos/>'
+    fake = fakes3.FakeS3({'bkt': objs}, page_size=case.get('page_size', 2))
+    keys = sorted(k for k in objs if k.startswith('pre/') and k.endswith('.mos.xml'))
+    fails = []
+
+    def fail(mode, detail, exp=None, got=None):
+        fails.append(Failure(PROP, f'C19|{cmd}-s3|{mode}', f'{cmd} (S3): {detail}', exp, got))
+    opts = case.get('opts', {})
+    with warnings.catch_warnings():
+        warnings.simplefilter('ignore')
+        with fake:
+            if cmd in ('detect', 'inspect'):
+                exp_out, bad = '', []
+                for k in keys:
+                    try:
+                        mo = MosFile.from_s3('bkt', k)
+                    except MosRoMgrException:
+                        bad.append(k)
+                        continue
+                    exp_out += f'{k}: {type(mo).__name__}' + (' (completed)' if mo.completed else '') + '\n'
+                    if cmd == 'inspect':
+                        buf = io.StringIO()
+                        with contextlib.redirect_stdout(buf):
+                            mo.inspect()
+                        exp_out += buf.getvalue() + '\n'
+                argv = [cmd, '-b', 'bkt', '-p', 'pre/'] + (['-s', '.mos.xml'] if opts.get('s') else [])
+                out, err, status, exc = run_cli(argv)
+                if cmd == 'inspect':
+                    out = ''.join(l + '\n' for l in out.splitlines() if l.strip())
+                    exp_out = ''.join(l + '\n' for l in exp_out.splitlines() if l.strip())
+                if exc is not None:
+                    fail(f'exception-escaped-{type(exc).__name__}', 'main() let an exception escape')
+                elif out != exp_out:
+                    fail('stdout-differs', f'stdout differs from the library view (status {status}, stderr {err[-200:]!r})',
+                         exp_out, out)
+                for k in bad:
+                    if k not in err:
+                        fail('bad-key-not-reported', f'{k} is invalid but stderr does not mention it')
+                return fails
+            exp, exp_err = None, None
+            try:
+                mc = MosCollection.from_s3(bucket_name='bkt', prefix='pre/', allow_incomplete=bool(opts.get('i')))
+                mc.merge(strict=not opts.get('n'))
+                exp = str(mc)
+            except Exception as e:
+                exp_err = type(e).__name__
+            argv = ['merge', '-b', 'bkt', '-p', 'pre/'] + (['-s', '.mos.xml'] if opts.get('s') else [])
+            argv += (['-i'] if opts.get('i') else []) + (['-n'] if opts.get('n') else [])
+            out, err, status, exc = run_cli(argv)
+    if exc is not None:
+        fail(f'exception-escaped-{type(exc).__name__}', 'main() let an exception escape')
+    elif exp_err is not None:
+        if status != 2 or not err.strip():
+            fail(f'error-but-status-{status}', f'library view is an error ({exp_err}); status {status!r}, stderr {err!r}')
+    elif status not in (None, 0):
+        fail(f'success-but-status-{status}', f'library merge succeeds, command returned {status!r}: {err!r}')
+    elif out not in (exp + '\n', exp):
+        fail('stdout-differs', 'stdout is not str(mc) of the library', exp, out)
     return fails
 
 
@@ -193,6 +268,8 @@ def rejudge(case):
     root = os.path.join(env.WORK_DIR, f'c19-{os.getpid()}')
     shutil.rmtree(root, ignore_errors=True)
     try:
+        if case.get('via') == 's3':
+            return judge_s3(case, root)
         if case['cmd'] == 'merge':
             return judge_merge(case, root)
         return judge_listing(case, root)
@@ -282,6 +359,20 @@ def shard(args):
         col.record(case, len(kinds) >= 3 and not_last, cl, rejudge(case),
                    key=h64(case['cmd'], str(case['files'])))
     drive.run_given(listing_case(), one, n, seed)
+
+    def one_s3(case):
+        c = dict(case, via='s3', opts={'s': len(case['files']) % 2 == 0}, page_size=1 + len(case['files']) % 3)
+        col.record(c, True, [case['cmd'], f"{case['cmd']}:s3"], rejudge(c),
+                   key=h64('s3', case['cmd'], str(case['files'])))
+    drive.run_given(listing_case(), one_s3, max(5, n // 3), seed + 2)
+
+    def two_s3(case):
+        if not case['files'] or any(k in ('missing', 'dir') for k, _ in case['files']):
+            return
+        c = {'cmd': 'merge', 'files': case['files'], 'via': 's3', 'page_size': 2,
+             'opts': {'i': case['opts']['i'], 'n': case['opts']['n'], 's': case['opts']['o']}}
+        col.record(c, True, ['merge', 'merge:s3'], rejudge(c), key=h64('s3m', str(case['files']), str(c['opts'])))
+    drive.run_given(merge_case(), two_s3, max(5, n // 3), seed + 3)
 
     def two(case):
         cl = ['merge', f"merge:shape:{case['shape']}"]
